@@ -262,6 +262,24 @@ func evalC09(op string, args []string) string {
 		return "UNKNOWN-OP"
 	}
 	as := toAttributes(parseAVPs(args[0]))
+	// For every second case equal values ARE one slice (a value read from one packet and added to another,
+	// one constant added under two types): the list operations store and drop slices, they never write
+	// through them, so an operation on one attribute cannot reach another that shares its bytes.
+	share := (len(args[0])+len(args[1]))%2 == 0
+	interned := map[string]radius.Attribute{}
+	val := func(v radius.Attribute) radius.Attribute {
+		if !share || len(v) == 0 {
+			return v
+		}
+		if w, ok := interned[string(v)]; ok {
+			return w
+		}
+		interned[string(v)] = v
+		return v
+	}
+	for _, a := range as {
+		a.Attribute = val(a.Attribute)
+	}
 	var obs []string
 	if args[1] != "-" {
 		for _, e := range strings.Split(args[1], ",") {
@@ -269,9 +287,10 @@ func evalC09(op string, args []string) string {
 			k := radius.Type(atoi(f[1]))
 			switch f[0] {
 			case "add":
-				as.Add(k, radius.Attribute(unhx(f[2])))
+				as.Add(k, val(radius.Attribute(unhx(f[2]))))
 				obs = append(obs, showAttributes(as))
 			case "set":
+				// (a NEW slice of the value: what Set stores must not be written into what was there)
 				as.Set(k, radius.Attribute(unhx(f[2])))
 				obs = append(obs, showAttributes(as))
 			case "del":
